@@ -220,6 +220,8 @@ void Runner::op_start(Thread *t, int idx, const Op &op, OpRes &res) {
     if (k->procs[i]->start_op == idx && k->procs[i]->ppid == k->caller->pid) child = k->procs[i];
   tuple(OP_START, (uint64_t) st0, (uint64_t) (v < 0 ? -v : v), (uint64_t) (eff[0] * 64 + eff[1] * 8 + eff[2]) * 4 + (uint64_t) (s.fork * 2 + s.nonblocking));
 
+  if (st0 == LS_NEW && h->start_failed_once && valid && v == C.EINVAL_ && k->faults.empty())
+    viol("C04", "restart-after-failed-start-rejected", "", "a start failed earlier on this handle; starting it again was rejected with the invalid-argument error, so the failed start did not leave the handle not started", idx);
   if (st0 != LS_NEW) {
     if (v != C.EINVAL_)
       viol("C14", "misuse-not-rejected", fmt("op=start/state=%s", st0 == LS_NONE ? "null" : st0 == LS_RUNNING ? "running" : "exited"),
